@@ -145,21 +145,30 @@ def rule_r5_names(ctx: Ctx) -> None:
         if isinstance(e, tuple):
             raise AnalysisError("unexpected marker in Attribute.__init__")
         if isinstance(e, ast.Call) and dotted(e.func) == "isinstance" and norm(e.args[0]) == "data_type":
-            if repo.resolve_expr(ainit.module, e.args[1], attr) is void:
+            k = repo.resolve_expr(ainit.module, e.args[1], attr)
+            if k is void:
                 return A("IS_VOID")
+            if isinstance(k, ClassInfo) and k.name == "ServiceType":
+                return A("IS_SERVICE")
         if norm(e) in ("str(name)", "self._name", "name"):
             return A("NAMED")
         raise AnalysisError("Attribute.__init__: condition outside the abstraction: %s" % norm(e))
 
     bad = []
-    for val in valuations(["IS_VOID", "NAMED"]):
+    from ..decide import f_atoms
+
+    used_atoms = {a for p in apaths for a in f_atoms(path_formula(p, atomize))}
+    for val in valuations(["IS_VOID", "NAMED"] + (["IS_SERVICE"] if "IS_SERVICE" in used_atoms else []), lambda v: not (v.get("IS_SERVICE") and v["IS_VOID"])):
         taken = [p for p in apaths if f_eval(path_formula(p, atomize), val)]
         ctx.count()
         if len(taken) != 1:
             raise AnalysisError("Attribute.__init__: %d feasible paths" % len(taken))
         p = taken[0]
         checked = any(isinstance(ev, ast.Call) and dotted(ev.func) == "check_name" and [norm(a) for a in ev.args] == ["str(name)"] for ev in p.events)
-        if val["IS_VOID"]:
+        if val.get("IS_SERVICE"):
+            if p.kind != "raise" or not _raises_ide(ctx, ainit, p.value):
+                bad.append({"state": val, "found": p.kind})
+        elif val["IS_VOID"]:
             want_reject = val["NAMED"]
             if (p.kind == "raise") != want_reject or (p.kind == "raise" and not _raises_ide(ctx, ainit, p.value)):
                 bad.append({"state": val, "found": p.kind})
